@@ -55,6 +55,7 @@ pub fn det_families() -> Vec<&'static str> {
 pub mod live_park;
 pub mod live_join;
 pub mod live_life;
+pub mod live_cancel;
 
 /// a live-mode scenario (real runtime, real time)
 pub struct LiveBuilt {
@@ -71,6 +72,8 @@ pub fn build_live(family: &str, rng: &mut Rng, tier: u32) -> Option<LiveBuilt> {
         "park" => Some(live_park::build(rng, tier)),
         "join" => Some(live_join::build(rng, tier)),
         "life" => Some(live_life::build(rng, tier)),
+        "cancel" => Some(live_cancel::build(rng, tier)),
+        "cancel_mutex" => Some(live_cancel::build_mutex(rng, tier)),
         _ => None,
     }
 }
